@@ -452,6 +452,11 @@ func ServerWithOptions(opts ...ServerOption) (*Association, error) {
 	select {
 	case err := <-assoc.handshakeCompletedCh:
 		if err != nil {
+			// Nobody else holds this association: tear it down, otherwise its
+			// goroutines stay behind and a late handshake packet would block the
+			// read loop for ever in completeHandshake.
+			assoc.Close() // nolint:errcheck,gosec
+
 			return nil, err
 		}
 
@@ -520,6 +525,9 @@ func createClientWithOptionsWithContext(ctx context.Context, opts ...ClientOptio
 		return nil, ctx.Err()
 	case err := <-assoc.handshakeCompletedCh:
 		if err != nil {
+			// see ServerWithOptions: do not leave a failed association running.
+			assoc.Close() // nolint:errcheck,gosec
+
 			return nil, err
 		}
 
